@@ -19,6 +19,16 @@ WALL_CAP = {"quick": 900.0, "thorough": 4 * 3600.0}
 
 
 def _work(job: Tuple[int, int, int]) -> Dict:
+    """One chunk = consecutive run indices executed in order in a FRESH process (forked from the pristine worker), so that a
+    program's verdict is a function of the chunk prefix only — hidden state in the algebra layer cannot leak across chunks,
+    and a violation that needs earlier programs can be replayed."""
+    st, res = runner.run_isolated(_work_inner, job, 3600)
+    if st != "ok":
+        raise HarnessError("C05 chunk %s failed: %s %s" % (job[:2], st, str(res)[-2000:]))
+    return res
+
+
+def _work_inner(job: Tuple[int, int, int]) -> Dict:
     start, end, base = job
     import numpy as np  # noqa: WPS433
 
@@ -64,7 +74,7 @@ def _work(job: Tuple[int, int, int]) -> Dict:
         if res["violations"]:
             agg["n_violating_runs"] += 1
             if len(agg["violations"]) < 8:
-                agg["violations"].append({"run": i, "plan": plan, "violation": res["violations"][0]})
+                agg["violations"].append({"run": i, "plan": plan, "violation": res["violations"][0], "chunk_start": start})
         if res["other_exceptions"]:
             agg["n_other_exceptions"] += len(res["other_exceptions"])
             if len(agg["other_exceptions"]) < 4:
@@ -77,6 +87,26 @@ def _work(job: Tuple[int, int, int]) -> Dict:
     return agg
 
 
+def _run_sequence(plans: List[Dict]) -> Optional[Dict]:
+    """Execute programs in order in this process; the first violation of the LAST program (or None)."""
+    res = None
+    for p in plans:
+        res = c05.execute(p)
+    if res and res["violations"]:
+        out = dict(res["violations"][0])
+        out["log_digest"] = res["log_digest"]
+        out["fired"] = res["fired"]
+        return out
+    return None
+
+
+def _sequence_class(plans: List[Dict]) -> Optional[Tuple]:
+    st, v = runner.run_isolated(_run_sequence, plans, 600)
+    if st != "ok" or v is None:
+        return None
+    return c05.violation_class(v)
+
+
 def _reproduces(plan: Dict) -> Optional[Tuple]:
     res = c05.execute(plan)
     if res["violations"]:
@@ -87,6 +117,17 @@ def _reproduces(plan: Dict) -> Optional[Tuple]:
 def replay(path: str) -> int:
     with open(path) as f:
         doc = json.load(f)
+    if doc.get("plans"):
+        st, v = runner.run_isolated(_run_sequence, doc["plans"], 900)
+        if st != "ok":
+            runner.say("HARNESS-ERROR: sequence replay did not complete: %s %s" % (st, str(v)[-1500:]))
+            return env.EXIT_HARNESS
+        if v is not None:
+            runner.say("replay: %d programs in one fresh process; the last one: %s at op %d (%s), witness %s" % (len(doc["plans"]), v["oracle"], v["op_index"], v["op"], v["witness"]))
+            runner.say("VIOLATION property=%s replay=%s" % (PROP, path))
+            return env.EXIT_VIOLATION
+        runner.say("replay: no violation")
+        return env.EXIT_OK
     plan = doc["plan"]
     res = c05.execute(plan)
     if res["violations"]:
@@ -165,6 +206,45 @@ def run(tier: str, runs_override: Optional[int] = None) -> int:
         if cls in seen_cls or len(seen_cls) >= 3:
             continue
         seen_cls.add(cls)
+        alone = runner.run_isolated(_reproduces, v["plan"], 300)
+        if alone[0] == "ok" and alone[1] != cls:
+            # the verdict depends on programs executed EARLIER in the same process: hidden state in the algebra layer.
+            # Find a short run of consecutive programs that reproduces it, then drop programs from it.
+            plans = None
+            width = 1
+            while True:
+                lo = max(v["chunk_start"], v["run"] - width)
+                cand = [c05.gen_plan(env.run_seed(base, PROP, j)) for j in range(lo, v["run"] + 1)]
+                if _sequence_class(cand) == cls:
+                    plans = cand
+                    break
+                if lo == v["chunk_start"]:
+                    break
+                width *= 2
+            if plans is None:
+                runner.say("HARNESS-ERROR: violation of run %d reproduces neither alone nor with its chunk prefix" % v["run"])
+                return env.EXIT_HARNESS
+            t_min = time.monotonic()
+            i_drop = 0
+            while i_drop < len(plans) - 1 and time.monotonic() - t_min < 90:
+                cand = plans[:i_drop] + plans[i_drop + 1:]
+                if _sequence_class(cand) == cls:
+                    plans = cand
+                else:
+                    i_drop += 1
+            doc = {"property": PROP, "class": list(cls), "base_seed": base, "run_index": v["run"], "violation": v["violation"],
+                   "plans": plans, "note": "the last program violates the oracle only after the earlier ones ran in the same process: the algebra layer keeps state between calls"}
+            path = runner.write_replay(PROP, "%d-%d-seq" % (base, v["run"]), doc)
+            cp = subprocess.run([os.path.join(env.VERIF_DIR, "check"), PROP, "--replay", path], capture_output=True, text=True, timeout=900)
+            if "VIOLATION property=%s" % PROP not in cp.stdout:
+                runner.say("HARNESS-ERROR: program sequence does not reproduce in a fresh interpreter: %s" % path)
+                runner.say(cp.stdout[-2000:] + cp.stderr[-2000:])
+                return env.EXIT_HARNESS
+            reported.append({"class": list(cls), "replay": path, "programs_in_sequence": len(plans)})
+            runner.say("VIOLATION property=%s replay=%s" % (PROP, path))
+            runner.say("  %s on %s, only after %d earlier program(s) in the same process (hidden state in the algebra layer)" % (cls[1], cls[2], len(plans) - 1))
+            exit_code = env.EXIT_VIOLATION
+            continue
         small, mstats = runner.minimise(v["plan"], cls, _reproduces, c05.candidates, budget_s=60.0)
         res = c05.execute(small)
         doc = {
